@@ -191,8 +191,7 @@ class Gen:
             sc.add("ls", "ls %s" % hx(g), kind="ls")
             if rng.random() < 0.4:
                 sc.add("lsstaged", "lsstaged %s" % hx(g), kind="ls")
-            # character classes, alternatives and escapes: outside the Lean glob model (kind "skip": judged by the
-            # listing oracle only)
+            # character classes, alternatives, escapes and patterns globset rejects
             if all(ord(c) < 128 for c in frag) and frag:
                 k = rng.randrange(len(frag))
                 c = frag[k]
@@ -204,10 +203,14 @@ class Gen:
                                  "{%s,%s}" % ("".join(frag), other),
                                  "".join(frag[:k]) + "\\" + "".join(frag[k:]),
                                  "".join(frag[:k]) + "[%s]" % other + "".join(frag[k + 1:])])
-                if "/" not in gx and "-" not in frag and "]" not in frag and "," not in frag:
-                    sc.add("ls", "ls %s" % hx(gx), kind="skip")
-                    if rng.random() < 0.4:
-                        sc.add("lsstaged", "lsstaged %s" % hx(gx), kind="skip")
+                malformed = rng.random() < 0.15
+                if malformed:
+                    gx = rng.choice(["".join(frag[:k]) + "[", "{" + "".join(frag), "".join(frag) + "}", "".join(frag[:k]) + "[z-a]", "{a,{b,c}}", "".join(frag) + "\\"])
+                if "/" not in gx and "-" not in frag and "]" not in frag and "," not in frag and "**" not in gx:
+                    sc.add("ls", "ls %s" % hx(gx), kind="ls")
+                    # (a malformed pattern is only reported by the staged listing once a staging area exists)
+                    if rng.random() < 0.4 and not malformed:
+                        sc.add("lsstaged", "lsstaged %s" % hx(gx), kind="ls")
 
     def observe_main(self, oid):
         sc = self.sc
